@@ -670,6 +670,7 @@ func stressCases(r *hx.Rng, tier string) []Case {
 	}
 	add("inbox", Stack{}, 100)
 	add("pool", Stack{}, 20)
+	add("wspool", Stack{}, 60)
 
 	return cs
 }
